@@ -31,6 +31,7 @@ def run(ctx):
     ctx.cov.update(states=res["states"], transitions=res["transitions"], traces_validated_against_impl=sum(1 for d in ds if d["t"] == "smlconc"),
                    evaluations=len(tot), distinct_nontrivial=len({(d["gen"], d["mode"], d["n"], tuple(d["input"][:64])) for d in tot}),
                    rule="one evaluation = one (input, entry point) parsed in a child process; distinct = distinct (generator, entry point, length, first 64 bytes)",
+                   samples=[dict(gen=d["gen"], mode=d["mode"], n=d["n"], outcome=d["outcome"], detail=d["detail"][:120], input=smlcommon.text_of(d["input"], 80)) for d in tot[::max(1, len(tot) // 4)][:5]],
                    outcomes=outcomes, generators=gens, largest_input=max(d["n"] for d in tot), parse_errors_with_position=sum(1 for d in tot if d["is_parse_error"]),
                    exhaustive=False, checker_cmd="vh sml --parts total,conc (child processes); tlc OracleSml")
     ctx.assumptions += ["time envelope 1 s + 0.2 ms/KB + 150 us x (KB)^2, allocation envelope 4 MiB + 256 x len(input); a hang is 8 s without a result (dispatch stops after 6 hangs)",
